@@ -23,7 +23,7 @@ use leptos::either::Either;
 use leptos::prelude::*;
 use std::collections::{BTreeSet, HashMap};
 use std::panic::{catch_unwind, AssertUnwindSafe};
-use std::sync::Arc;
+use std::sync::{Arc, Mutex};
 use tachys::html::attribute::any_attribute::{AnyAttribute, IntoAnyAttribute};
 use tachys::html::attribute::custom::custom_attribute;
 use tachys::renderer::native_dom::{self as nd, Element, Node, NodeKind};
@@ -37,19 +37,48 @@ enum NodeH {
     Memo(Memo<i64>),
 }
 
+/// the handles of the component-local signals created so far: (scope id, keys of the enclosing rows, handle)
+#[derive(Clone, Default)]
+struct Reg {
+    sigs: Arc<Mutex<Vec<(u32, Vec<u32>, RwSignal<i64>)>>>,
+}
+
+impl Reg {
+    /// current value of the live instance of `scope sid` under the rows keyed `path`
+    fn live_value(&self, sid: u32, path: &[u32]) -> Option<i64> {
+        let g = self.sigs.lock().unwrap();
+        g.iter().rev().find(|(s, p, h)| *s == sid && p == path && !h.is_disposed()).and_then(|(_, _, h)| h.try_get_untracked())
+    }
+}
+
+/// what the closures of a view capture: the program's nodes, the state of the enclosing component
+/// bodies (innermost last), the key of the enclosing row
 #[derive(Clone, Default)]
 struct Ctx {
     nodes: Arc<Vec<NodeH>>,
+    locals: Vec<NodeH>,
+    key: i64,
+    path: Vec<u32>,
+    reg: Reg,
+    /// fresh-render oracle: a new component-local signal starts with the current value of the live
+    /// instance at the same place of the mounted view (component-local signals are part of the state)
+    seed: Option<Reg>,
+}
+
+fn get_node(h: Option<&NodeH>) -> i64 {
+    match h {
+        Some(NodeH::Sig(s)) => s.get(),
+        Some(NodeH::Memo(m)) => m.get(),
+        None => 0,
+    }
 }
 
 fn eval(cx: &Ctx, e: &Expr) -> i64 {
     match e {
         Expr::Lit(n) => *n,
-        Expr::Rd(i) => match cx.nodes.get(*i) {
-            Some(NodeH::Sig(s)) => s.get(),
-            Some(NodeH::Memo(m)) => m.get(),
-            None => 0,
-        },
+        Expr::Rd(i) => get_node(cx.nodes.get(*i)),
+        Expr::Key => cx.key,
+        Expr::Loc(j) => get_node(cx.locals.iter().rev().nth(*j)),
         Expr::Add(a, b) => eval(cx, a).wrapping_add(eval(cx, b)),
         Expr::Mulc(k, a) => k.wrapping_mul(eval(cx, a)),
         Expr::Ite(c, t, f) => {
@@ -64,13 +93,13 @@ fn make_ctx(defs: &[Def], env: &[i64]) -> Ctx {
         match d {
             Def::Sig(_) => nodes.push(NodeH::Sig(RwSignal::new(env[i]))),
             Def::Memo(b) => {
-                let cx = Ctx { nodes: Arc::new(nodes.clone()) };
+                let cx = Ctx { nodes: Arc::new(nodes.clone()), ..Default::default() };
                 let b = b.clone();
                 nodes.push(NodeH::Memo(Memo::new(move |_| eval(&cx, &b))));
             }
         }
     }
-    Ctx { nodes: Arc::new(nodes) }
+    Ctx { nodes: Arc::new(nodes), ..Default::default() }
 }
 
 fn realise_attrs(attrs: &[AttrD], cx: &Ctx) -> Vec<AnyAttribute> {
@@ -144,6 +173,43 @@ fn realise(v: &Arc<ViewD>, cx: &Ctx) -> AnyView {
                 />
             }
             .into_any()
+        }
+        ViewD::ForR(sel, lists, row) => {
+            let (cx1, sel, lists) = (cx.clone(), sel.clone(), lists.clone());
+            let (cx2, row) = (cx.clone(), Arc::new((**row).clone()));
+            view! {
+                <For
+                    each=move || lists[for_index(eval(&cx1, &sel), lists.len())].clone()
+                    key=|k| *k
+                    children=move |k: u32| {
+                        // the row's component body: it sees its key and nothing of the enclosing bodies
+                        let mut cx = cx2.clone();
+                        cx.locals = vec![];
+                        cx.key = k as i64;
+                        cx.path.push(k);
+                        view! { <li>{k.to_string()}{realise(&row, &cx)}</li> }
+                    }
+                />
+            }
+            .into_any()
+        }
+        ViewD::Scope(sid, d, kid) => {
+            // the component body runs NOW (view construction), under the current owner
+            let h = match d {
+                LDef::Memo(b) => {
+                    let (cx2, b) = (cx.clone(), b.clone());
+                    NodeH::Memo(Memo::new(move |_| eval(&cx2, &b)))
+                }
+                LDef::Sig(init) => {
+                    let v0 = cx.seed.as_ref().and_then(|r| r.live_value(*sid, &cx.path)).unwrap_or(*init);
+                    let s = RwSignal::new(v0);
+                    cx.reg.sigs.lock().unwrap().push((*sid, cx.path.clone(), s));
+                    NodeH::Sig(s)
+                }
+            };
+            let mut cx2 = cx.clone();
+            cx2.locals.push(h);
+            realise(&Arc::new((**kid).clone()), &cx2)
         }
         ViewD::Susp(x, a) => {
             let (cx1, x) = (cx.clone(), x.clone());
@@ -387,8 +453,10 @@ impl Live {
         let view = self.view.clone().unwrap();
         let fo = Owner::new();
         let (defs, env, root2) = (self.defs.clone(), self.env.clone(), self.root2.clone());
+        let seed = self.cx.reg.clone();
         let mut st = fo.with(|| {
-            let cx = make_ctx(&defs, &env);
+            let mut cx = make_ctx(&defs, &env);
+            cx.seed = Some(seed);
             let v = realise(&view, &cx);
             let mut st = v.build();
             st.mount(&root2, None);
@@ -433,6 +501,9 @@ impl Live {
 
     fn take_snap(&self) -> Option<Snap> {
         let view = self.view.as_ref()?;
+        if is_x(view) {
+            return None;
+        }
         let mut kids = vec![];
         ref_render(&self.defs, &self.env, view, &[], &mut kids);
         let mut g = vec![];
@@ -531,7 +602,7 @@ impl Live {
                 self.env.push(v);
                 let mut nodes = (*self.cx.nodes).clone();
                 nodes.push(NodeH::Sig(RwSignal::new(v)));
-                self.cx = Ctx { nodes: Arc::new(nodes) };
+                self.cx = Ctx { nodes: Arc::new(nodes), reg: self.cx.reg.clone(), ..Default::default() };
                 "ok".into()
             }
             "memo" => {
@@ -544,7 +615,7 @@ impl Live {
                 let cx = self.cx.clone();
                 let mut nodes = (*self.cx.nodes).clone();
                 nodes.push(NodeH::Memo(Memo::new(move |_| eval(&cx, &b))));
-                self.cx = Ctx { nodes: Arc::new(nodes) };
+                self.cx = Ctx { nodes: Arc::new(nodes), reg: self.cx.reg.clone(), ..Default::default() };
                 "ok".into()
             }
             "mount" => {
@@ -575,6 +646,25 @@ impl Live {
                 self.written.insert(id);
                 self.envs.push(self.env.clone());
                 s.set(v);
+                self.line("")
+            }
+            "setl" => {
+                let (Some(sid), Some(v)) =
+                    (t.next().and_then(|x| x.parse::<u32>().ok()), t.next().and_then(|x| x.parse::<i64>().ok()))
+                else {
+                    return "bad-op".into();
+                };
+                if !t.done() || self.view.is_none() {
+                    return "bad-op".into();
+                }
+                let hs: Vec<RwSignal<i64>> =
+                    self.cx.reg.sigs.lock().unwrap().iter().filter(|(s, _, _)| *s == sid).map(|(_, _, h)| *h).collect();
+                for h in hs {
+                    if !h.is_disposed() {
+                        h.set(v);
+                    }
+                }
+                self.envs.push(self.env.clone());
                 self.line("")
             }
             "poll" => {
@@ -615,29 +705,51 @@ fn reads_below(e: &Expr, k: usize) -> bool {
         Expr::Add(a, b) => reads_below(a, k) && reads_below(b, k),
         Expr::Mulc(_, a) => reads_below(a, k),
         Expr::Ite(c, t, f) => reads_below(c, k) && reads_below(t, k) && reads_below(f, k),
+        Expr::Key | Expr::Loc(_) => false,
     }
 }
 
-/// expressions read defined nodes only; attribute names of one element are pairwise different
+/// global reads below `k`, scope references below `depth`, the row key only inside a row
+fn expr_ok(e: &Expr, k: usize, depth: usize, in_row: bool) -> bool {
+    match e {
+        Expr::Lit(_) => true,
+        Expr::Rd(i) => *i < k,
+        Expr::Key => in_row,
+        Expr::Loc(j) => *j < depth,
+        Expr::Add(a, b) => expr_ok(a, k, depth, in_row) && expr_ok(b, k, depth, in_row),
+        Expr::Mulc(_, a) => expr_ok(a, k, depth, in_row),
+        Expr::Ite(c, t, f) => expr_ok(c, k, depth, in_row) && expr_ok(t, k, depth, in_row) && expr_ok(f, k, depth, in_row),
+    }
+}
+
+/// expressions read defined nodes only, component-local state and the row key at the level of the body
+/// that created them; attribute names of one element are pairwise different
 fn view_ok(v: &ViewD, defs: &[Def]) -> bool {
-    let n = defs.len();
+    view_ok_at(v, defs.len(), 0, false)
+}
+
+fn view_ok_at(v: &ViewD, n: usize, d: usize, r: bool) -> bool {
     match v {
         ViewD::Text(_) | ViewD::Unit => true,
         ViewD::Elem(_, attrs, kid) => {
             let mut names = BTreeSet::new();
             attrs.iter().all(|a| match a {
                 AttrD::Stat(nm, _) => names.insert(("a", *nm)),
-                AttrD::Dyn(nm, e) => names.insert(("a", *nm)) && reads_below(e, n),
-                AttrD::Cls(nm, e) => names.insert(("c", *nm)) && reads_below(e, n),
-                AttrD::Sty(nm, e) => names.insert(("s", *nm)) && reads_below(e, n),
-            }) && view_ok(kid, defs)
+                AttrD::Dyn(nm, e) => names.insert(("a", *nm)) && expr_ok(e, n, d, r),
+                AttrD::Cls(nm, e) => names.insert(("c", *nm)) && expr_ok(e, n, d, r),
+                AttrD::Sty(nm, e) => names.insert(("s", *nm)) && expr_ok(e, n, d, r),
+            }) && view_ok_at(kid, n, d, r)
         }
-        ViewD::Seq(a, b) => view_ok(a, defs) && view_ok(b, defs),
-        ViewD::DynText(e) => reads_below(e, n),
-        ViewD::Either(c, a, b) | ViewD::Show(c, a, b) => reads_below(c, n) && view_ok(a, defs) && view_ok(b, defs),
-        ViewD::For(sel, _) => reads_below(sel, n),
-        ViewD::Susp(e, a) => reads_below(e, n) && view_ok(a, defs),
-        ViewD::Errb(e, a) => reads_below(e, n) && view_ok(a, defs),
+        ViewD::Seq(a, b) => view_ok_at(a, n, d, r) && view_ok_at(b, n, d, r),
+        ViewD::DynText(e) => expr_ok(e, n, d, r),
+        ViewD::Either(c, a, b) | ViewD::Show(c, a, b) => {
+            expr_ok(c, n, d, r) && view_ok_at(a, n, 0, false) && view_ok_at(b, n, 0, false)
+        }
+        ViewD::For(sel, _) => expr_ok(sel, n, d, r),
+        ViewD::ForR(sel, _, row) => expr_ok(sel, n, d, r) && view_ok_at(row, n, 0, true),
+        ViewD::Scope(_, LDef::Memo(b), kid) => expr_ok(b, n, d, r) && view_ok_at(kid, n, d + 1, r),
+        ViewD::Scope(_, LDef::Sig(_), kid) => view_ok_at(kid, n, d + 1, r),
+        ViewD::Susp(e, a) | ViewD::Errb(e, a) => reads_below(e, n) && view_ok_at(a, n, 0, false),
     }
 }
 
